@@ -310,6 +310,8 @@ def run_rebuild(case):
         # 3. destination pre-state
         # (a "lonely" destination lies below directories that hold nothing else, and may not exist yet)
         dest_rel = os.path.join("lone", "deeper", "dest") if case.get("lonely_dest") else "dest"
+        if case.get("dest_is_name") and names and "/" not in names[0] and names[0] not in ("", ".", ".."):
+            dest_rel = os.path.join("seeding", names[0])       # the destination carries the torrent's own name
         dest = os.path.join(sbx, dest_rel)
         os.makedirs(dest)
         if case.get("file_in_way"):      # a FILE sits where the metafile wants a directory
